@@ -163,7 +163,7 @@ func tagSets(cons []*Contract, tier string) []string {
 }
 
 func runProperty(o *runOpts, prop string) ([]*FuncResult, error) {
-	w0, err := LoadContracts(o.repo, specFiles(o.verif))
+	w0, err := LoadContracts(o.repo, specFiles(o.verif), "verif")
 	if err != nil {
 		return nil, err
 	}
@@ -173,7 +173,7 @@ func runProperty(o *runOpts, prop string) ([]*FuncResult, error) {
 	}
 	var all []*FuncResult
 	for _, tags := range tagSets(cons, o.tier) {
-		w, err := LoadContracts(o.repo, specFiles(o.verif))
+		w, err := LoadContracts(o.repo, specFiles(o.verif), tags)
 		if err != nil {
 			return nil, err
 		}
@@ -239,7 +239,7 @@ func specFiles(verif string) []string {
 func cmdWarm(args []string) {
 	fs := flag.NewFlagSet("warm", flag.ExitOnError)
 	o, _ := parseOpts(fs, args)
-	w, err := LoadContracts(o.repo, specFiles(o.verif))
+	w, err := LoadContracts(o.repo, specFiles(o.verif), "verif")
 	if err != nil {
 		fatalf("%v", err)
 	}
